@@ -53,12 +53,14 @@ def calls_from_dump(dumpfile, var='call', limit=None, key=None):
     return out
 
 
-def execute(env: Env, calls, hashseed=0, shards=16, script='run_calls.py', extra=None, tag='t'):
+def execute(env: Env, calls, hashseed=0, shards=16, script='run_calls.py', extra=None, tag='t', envs=None, per=500):
     """Run the calls against the real spil in `shards` parallel interpreters; returns trace path."""
     n = len(calls)
     if n == 0:
         raise Machinery('no calls to execute')
-    shards = max(1, min(shards, (n + 499) // 500))
+    if envs:
+        shards = len(envs)
+    shards = max(1, min(shards, (n + per - 1) // per))
     files = []
     for s in range(shards):
         cf_ = os.path.join(env.work, '%s.calls.%d' % (tag, s))
@@ -68,7 +70,7 @@ def execute(env: Env, calls, hashseed=0, shards=16, script='run_calls.py', extra
         files.append(cf_)
 
     def one(s):
-        return env.run(script, [files[s], files[s] + '.trace'], hashseed=hashseed, extra=extra)
+        return (envs[s] if envs else env).run(script, [files[s], files[s] + '.trace'], hashseed=hashseed, extra=extra)
     with cf.ThreadPoolExecutor(shards) as ex:
         list(ex.map(one, range(shards)))
     trace = os.path.join(env.work, tag + '.trace.ndjson')
